@@ -207,6 +207,9 @@ class Q:
             return sql + ts, acc
         s, t = self.simple(depth)
         ts, tt = self.tail() if tail else ("", {})
+        if tail and tt and not ctes_only(ctes) and self.r.random() < 0.08:
+            # the whole query in parentheses followed by a tail: the tail attaches to the parenthesised query as a whole
+            return "(%s)%s" % (s, ts), {"from": t, **tt}
         t = dict(t)
         t.update(tt)
         sql = s + ts
@@ -222,6 +225,10 @@ class Q:
         return sql, t
 
     chains = []
+
+
+def ctes_only(ctes):
+    return False
 
 
 def run(ctx):
